@@ -280,7 +280,7 @@ fn run_row(case: &Value, k: &Keys) -> Vec<(String, Value, Value)> {
   match item {
     Err(e) => {
       if want_decoded {
-        diffs.push(("decode_refused".into(), json!("token decodes"), json!(e)));
+        diffs.push(("~decode_refused".into(), json!("token decodes"), json!(e)));
       }
       return diffs;
     }
@@ -326,7 +326,7 @@ fn run_row(case: &Value, k: &Keys) -> Vec<(String, Value, Value)> {
         }
         (Err(_), false) => {}
         (Ok(_), false) => diffs.push(("verified_unbound".into(), json!(case["outcome"]), json!("verified"))),
-        (Err(e), true) => diffs.push(("valid_token_refused".into(), json!("verified"), json!(e.to_string()))),
+        (Err(e), true) => diffs.push(("~valid_token_refused".into(), json!("verified"), json!(e.to_string()))),
       }
     }
   }
